@@ -311,6 +311,11 @@ func (en *SpecEnv) equal(l, r Val) string {
 			cs = append(cs, en.equal(l.Fs[i], r.Fs[i]))
 		}
 		return mkAnd(cs...)
+	case KFunc:
+		// function values read from the heap are identified by a symbolic code pointer
+		if r.K == KFunc && l.Fn == nil && r.Fn == nil && l.S != "" && r.S != "" {
+			return mkEq(l.S, r.S)
+		}
 	}
 	en.fail("equality on %v", l.K)
 	return ""
